@@ -411,25 +411,92 @@ Example C04_example_norm_prod_error :
   prod_no_underflow 1%float [1.5; -2; 0x1.999999999999ap-4; 0x1p-500]%float.
 Proof. exact norm_prod_example. Qed.
 
-(** ** 4. Known finding: the empty Matrix.  On the 0 x 0 matrix of [Matrix::empty()] every form that returns a new
-    Matrix panics (the result is built by [Matrix::new], which refuses a zero dimension) although the property asks
-    for the (empty) point-wise result; the op-assign forms do return it.  All theorems of section 2 are about
-    well-formed matrices ([wf_mat]: positive dimensions), i.e. about every input outside this class. *)
+(** ** 4. The empty Matrix (repaired finding [empty-matrix:value-form-panics]).  The three theorems of this section
+    used to DESCRIBE A DEFECT of the original code: on the 0 x 0 matrix of [Matrix::empty()] every form that returns a
+    new Matrix panicked ([C04_empty_matrix_scalar_forms] said [if trait_assign tr then Some empty else None], the other
+    two said [None]), because the result is rebuilt by [Matrix::new], whose [reshape_mut] refused every zero
+    dimension, although the property asks for the (empty) point-wise result.  [reshape_mut] now accepts the request
+    0 x 0 on empty data (one [fix:] commit in /repo); the theorems are restated for the repaired code: EVERY form
+    returns the empty matrix. *)
 Theorem C04_empty_matrix_scalar_forms :
   forall (T : Type) (O : Ops T) (tr : vtrait) (s : vty) (r : op_row) (x : T),
     find_row tr s TyF64 = Some r -> is_mat s = true ->
-    run_mat_row O r (MMat (mkmat 0 0 [])) (MSc x) = if trait_assign tr then Some (mkmat 0 0 []) else None.
+    run_mat_row O r (MMat (mkmat 0 0 [])) (MSc x) = Some (mkmat 0 0 []).
 Proof. exact @empty_mat_op_scalar. Qed.
 Theorem C04_empty_matrix_scalar_left_forms :
   forall (T : Type) (O : Ops T) (tr : vtrait) (o : vty) (r : op_row) (x : T),
     find_row tr TyF64 o = Some r -> is_mat o = true ->
-    run_mat_row O r (MSc x) (MMat (mkmat 0 0 [])) = None.
+    run_mat_row O r (MSc x) (MMat (mkmat 0 0 [])) = Some (mkmat 0 0 []).
 Proof. exact @empty_scalar_op_mat. Qed.
 Theorem C04_empty_matrix_other_forms :
   forall (T : Type) (O : Ops T) (t : vtok) (u : umap) (n : Z) (a : T),
-    mat_binop O t (mkmat 0 0 []) (mkmat 0 0 []) = None /\ mat_map O u (mkmat 0 0 []) = None /\
-    mat_powi O (mkmat 0 0 []) n = None /\ mat_powf O (mkmat 0 0 []) a = None /\ mat_neg O (mkmat 0 0 []) = None.
+    mat_binop O t (mkmat 0 0 []) (mkmat 0 0 []) = Some (mkmat 0 0 []) /\
+    mat_map O u (mkmat 0 0 []) = Some (mkmat 0 0 []) /\
+    mat_powi O (mkmat 0 0 []) n = Some (mkmat 0 0 []) /\ mat_powf O (mkmat 0 0 []) a = Some (mkmat 0 0 []) /\
+    mat_neg O (mkmat 0 0 []) = Some (mkmat 0 0 []).
 Proof. exact @empty_mat_others. Qed.
+Theorem C04_empty_matrix_assign_forms :
+  forall (T : Type) (O : Ops T) (tr : vtrait) (s o : vty) (r : op_row),
+    find_row tr s o = Some r -> is_mat s = true -> is_mat o = true ->
+    run_mat_row O r (MMat (mkmat 0 0 [])) (MMat (mkmat 0 0 [])) = Some (mkmat 0 0 []).
+Proof. exact @empty_mat_assign. Qed.
+(** [Matrix::inf_norm] of the empty matrix is the NaN seed of [max] (no row sums), as for an empty Vector *)
+Theorem C04_empty_matrix_inf_norm :
+  forall (T : Type) (O : Ops T), mat_inf_norm O (mkmat 0 0 []) = Some (nan_ O).
+Proof. exact @empty_mat_inf_norm. Qed.
+
+(** The theorems of section 2 about well-formed matrices extend to [wf_mat0] = positive shape OR the empty matrix,
+    i.e. to every Matrix the crate's constructors and [Matrix::empty()] produce. *)
+Theorem C04_mat_op_scalar_wf0 :
+  forall (T : Type) (O : Ops T) (tr : vtrait) (s : vty) (r : op_row) (m : mat T) (x : T),
+    find_row tr s TyF64 = Some r -> is_mat s = true -> wf_mat0 m ->
+    run_mat_row O r (MMat m) (MSc x) = Some (mkmat (nr m) (nc m) (map (fun e => trait_op O tr e x) (dat m))).
+Proof. exact @mat_op_scalar0. Qed.
+Theorem C04_scalar_op_mat_wf0 :
+  forall (T : Type) (O : Ops T) (tr : vtrait) (o : vty) (r : op_row) (x : T) (m : mat T),
+    find_row tr TyF64 o = Some r -> is_mat o = true -> wf_mat0 m ->
+    run_mat_row O r (MSc x) (MMat m) = Some (mkmat (nr m) (nc m) (map (fun e => trait_op O tr x e) (dat m))).
+Proof. exact @scalar_op_mat0. Qed.
+Theorem C04_mat_assign_mat_wf0 :
+  forall (T : Type) (O : Ops T) (tr : vtrait) (s o : vty) (r : op_row) (m1 m2 : mat T),
+    find_row tr s o = Some r -> is_mat s = true -> is_mat o = true -> wf_mat0 m1 -> wf_mat0 m2 ->
+    run_mat_row O r (MMat m1) (MMat m2) =
+    if (nr m1 =? nr m2) && (nc m1 =? nc m2)
+    then Some (mkmat (nr m1) (nc m1) (map2 (trait_op O tr) (dat m1) (dat m2))) else None.
+Proof. exact @mat_assign_mat0. Qed.
+Theorem C04_mat_op_mat_wf0 :
+  forall (T : Type) (O : Ops T) (t : vtok) (m1 m2 : mat T),
+    wf_mat0 m1 -> wf_mat0 m2 -> nr m1 = nr m2 -> nc m1 = nc m2 ->
+    mat_binop O t m1 m2 = Some (mkmat (nr m1) (nc m1) (map2 (tok_fn O t) (dat m1) (dat m2))).
+Proof. exact @mat_binop_same_shape0. Qed.
+Theorem C04_mat_map_wf0 :
+  forall (T : Type) (O : Ops T) (u : umap) (m : mat T),
+    wf_mat0 m -> mat_map O u m = Some (mkmat (nr m) (nc m) (map (umap_fn O u) (dat m))).
+Proof. exact @mat_map_wf0. Qed.
+Theorem C04_mat_powf_wf0 :
+  forall (T : Type) (O : Ops T) (m : mat T) (a : T),
+    wf_mat0 m -> mat_powf O m a = Some (mkmat (nr m) (nc m) (map (fun x => powf O x a) (dat m))).
+Proof. exact @mat_powf_wf0. Qed.
+Theorem C04_mat_powi_wf0 :
+  forall (T : Type) (O : Ops T) (m : mat T) (n : Z),
+    wf_mat0 m -> mat_powi O m n = Some (mkmat (nr m) (nc m) (vpowi O (dat m) n)).
+Proof. exact @mat_powi_wf0. Qed.
+Theorem C04_mat_neg_wf0 :
+  forall (T : Type) (O : Ops T) (m : mat T),
+    wf_mat0 m -> mat_neg O m = Some (mkmat (nr m) (nc m) (map (neg O) (dat m))).
+Proof. exact @mat_neg_wf0. Qed.
+(** what stays refused: a shape with exactly one zero dimension (0 x c or r x 0; only [reshape_mut] with an inferred
+    dimension on empty data produces one) -- [Matrix::new] rejects it, so the value forms panic there *)
+Theorem C04_degenerate_matrix_map_panics :
+  forall (T : Type) (O : Ops T) (u : umap) (m : mat T),
+    ((nr m = 0 /\ 0 < nc m) \/ (0 < nr m /\ nc m = 0))%nat -> mat_map O u m = None.
+Proof. exact @degenerate_mat_map_panics. Qed.
+Example C04_example_wf0 :
+  wf_mat0 (mkmat 0 0 (@nil R)) /\ wf_mat0 (mkmat 2 1 [6%Q; 8%Q]) /\ ~ wf_mat0 (mkmat 0 3 (@nil R)).
+Proof.
+  split; [right; reflexivity|]. split; [left; cbv [wf_mat nr nc dat length]; auto|].
+  intros [(H & _)|H]; [cbn in H; inversion H|discriminate H].
+Qed.
 
 (** ** Tie A for the reductions: the model IS the source.  [Generated/reduce_loops.v] is regenerated on every run from
     src/linalg/utils.rs by the statement-level translator (tools/rsexpr.py, target tools/tiea/reduce_loops.py): the
